@@ -273,5 +273,6 @@ LEVEL_TEXT = ("Kernel-checked Lean 4 theorems: the model of ver_cmp equals the P
               "transitive (no size bound); every operator of _VersionMatch agrees with it (tables regenerated from /repo). The model is tied to the "
               "code by a differential run on grammar-generated version strings, which also evaluates the PMS spec and the preorder laws directly on "
               "the real ver_cmp / CPV comparisons / _VersionMatch.match.")
-LEVEL_NOTE = ("Trusted: Lean kernel; standard axioms only; the lexing of version strings into components/letter/suffixes (validated by the sampled "
-              "correspondence, not proved); Python's int/str comparison primitives.")
+LEVEL_NOTE = ("Trusted: Lean kernel; standard axioms only; the lexing of version strings is proved to invert rendering (lex_render, verCmpStr_eq_pms) "
+              "for well-formed versions; that pkgcore's regexp-based splitting is that lexer is validated by the sampled correspondence, not proved; "
+              "Python's int/str comparison primitives.")
